@@ -18,6 +18,7 @@ type C09Fuzz struct {
 	Files map[string][]byte `json:"files,omitempty"`
 	Out   bool              `json:"out,omitempty"` // -o @out.bin is part of argv
 	Kind  string            `json:"kind,omitempty"`
+	Stale bool              `json:"stale,omitempty"` // out.bin exists before the run
 }
 
 func checkC09Fuzz(c C09Fuzz) *Violation {
@@ -33,6 +34,9 @@ func checkC09Fuzz(c C09Fuzz) *Violation {
 	}
 	res := r.Exec()
 	lastFuzzExit = res.Exit
+	if c.Stale && res.Exit != 0 && string(res.OutFile) == string(c.Files["out.bin"]) {
+		res.OutFile = nil // a failing command may leave an existing file as it was
+	}
 	v := cleanOutcome(res)
 	if v == nil {
 		return nil
@@ -353,6 +357,10 @@ func genC09Fuzz(t *rapid.T) C09Fuzz {
 	case "o":
 		c.Argv = append(c.Argv, "-o", "@out.bin")
 		c.Out = true
+		if rapid.Bool().Draw(t, "stale-out") {
+			c.Files["out.bin"] = []byte("left over by an earlier run\n")
+			c.Stale = true
+		}
 	case "o-missing-dir":
 		c.Argv = append(c.Argv, "-o", "/nonexistent/dir/out.bin")
 	case "o-directory":
